@@ -653,6 +653,16 @@ class Engine:
             raise Unsupported('promoted ' + text)
         if text.startswith('"'):
             return self.str_literal(text)
+        m = re.match(r'^(?:<.*>|\w+)(?:::\w+)*::(\w+)$', text, re.S)
+        if m:
+            # an associated / function-local named constant: its body is dumped as `const <this body>::NAME: T = { .. }`
+            cands = [b for nm, bl in self.bodies.items() for b in bl if b.kind == 'const' and nm == body.name + '::' + m.group(1)]
+            if len(cands) > 1:
+                cands = [b for b in cands if re.search(r'(?<![\w])%s(?![\w])' % re.escape(b.ret), text)] or cands
+            if len(cands) == 1:
+                return self.run_body(cands[0], [], st.pc)[0]
+            if len(cands) > 1:
+                raise Unsupported('ambiguous constant ' + text[:80])
         return Opq('const ' + text[:40])
 
     def str_literal(self, text):
